@@ -581,7 +581,7 @@ def _worker_main(argv) -> int:
     def failing(m):
         res = m["res"]
         if "exc" in res:
-            return not (m["ft"].get("frozen_with_refs") and res["exc"].startswith("FrozenInstanceError"))
+            return True
         if res.get("py_iso") is None:
             return False
         return prop == "C04" or not m["ft"]["repeated_elems"]
@@ -640,9 +640,6 @@ def prepare_case(d: dict, org: str, sc, model_ok: bool) -> Dict[str, Any]:
 def decide(rep: Report, m: Dict[str, Any], v, model_ok: bool, inst: Dict[str, int], tallies: Dict[str, int], bad: list) -> None:
     res, ft = m["res"], m["ft"]
     if "exc" in res:
-        if inst.get("_c04e_open") and ft.get("frozen_with_refs") and res["exc"].startswith("FrozenInstanceError"):
-            inst["C04-e"] += 1      # python-level class rule: frozen-ness is not part of the heap model
-            return
         bad.append((m, f"exception {res['exc']}"))
         return
     code, frag, wf = v[0], v[1], v[2]
@@ -865,7 +862,7 @@ def run(tier: str, seed: int, replay=None) -> int:
         return rep.finish()
     codes = dict(zip(idx, vals))
 
-    inst = {"C05-b": 0, "C04-a": 0, "C04-c": 0, "C04-e": 0, "_c04e_open": any(f.fid == "C04-e" and f.kind == "open" for f in findings),
+    inst = {"C05-b": 0, "C04-a": 0, "C04-c": 0,
             "_c04c_open": any(f.fid == "C04-c" and f.kind == "open" for f in findings)}
     tallies = {"in_F": 0, "stale": 0}
     bad: List[Tuple[dict, str]] = []
@@ -876,7 +873,6 @@ def run(tier: str, seed: int, replay=None) -> int:
     dist["in_F"] = tallies["in_F"]
     rep.extra["distribution"] = {"dataset": dist, "generated_models": gdist, "generated_model_info": gen_info}
     inst.pop("_c04c_open", None)
-    inst.pop("_c04e_open", None)
     rep.extra["known_finding_instances"] = inst
     rep.extra["schema"] = {"tables": len(sc["tables"]), "association_tables": len(sc["assoc"]), "selfref_tags": sc["selfref"]}
     rep.samples = [{"case": m["descr"], "features": m["ft"], "loaded_via": m["res"].get("via"), "origin": m["origin"]} for m in metas[:: max(1, len(metas) // 5)]][:5]
@@ -921,14 +917,14 @@ def run(tier: str, seed: int, replay=None) -> int:
                 elif f.kind == "open":
                     rep.note("known finding C04-c: the scenario no longer yields a wrong object (repaired, or the address was not reused)")
                 continue
-            still = any(m["origin"] == f.witness and (m.get("code") == 2 or (f.cls == "K_frozen" and str(m["res"].get("exc", "")).startswith("FrozenInstanceError")))
+            still = any(m["origin"] == f.witness and (m.get("code") == 2 or "exc" in m["res"])
                         for m in metas)
             if f.kind == "open":
                 if still:
                     rep.known(f)
                 else:
                     rep.note(f"known finding {f.fid}: witness {f.witness} no longer fails as recorded (finding appears repaired or changed)")
-            elif any(m["origin"] == f.witness and m.get("code") != 0 for m in metas):
+            elif any(m["origin"] == f.witness and (m.get("code") != 0 or "exc" in m["res"]) for m in metas):
                 rep.violation({"kind": "counterexample", "case": w["case"], "why": f"regression of fixed finding {f.fid}",
                                "python": f"from harness import c05; print(c05.explain({w['case']!r}))"})
     return rep.finish()
